@@ -9,7 +9,7 @@
     sup <seed32> <bound> <count>          -> v0 v1 v2 v3 fold                 (random::sup<size_t>)
     between <seed32> <a> <b> <count>      -> v0 v1 v2 v3 fold                 (random::between<int>)
 -/
-import Vita.C07.Model
+import Vita.C07.Stream
 import Vita.C07.Gen
 open Vita.C07 Vita.Rng
 
@@ -31,7 +31,37 @@ def unhex (s : String) : Option Text :=
   go s.toList
 
 def engineOf (s : String) : Option Xo :=
-  if s = "default" then some (Xo.seed Xo.defSeed) else s.toNat?.map fun n => Xo.seed n.toUInt64
+  if s = "default" then some (Xo.seed Xo.defSeed)
+  else if s.startsWith "st:" then
+    match (s.splitOn ":").drop 1 |>.map String.toNat? with
+    | [some a, some b, some c, some d] => some ⟨a.toUInt64, b.toUInt64, c.toUInt64, d.toUInt64⟩
+    | _ => none
+  else s.toNat?.map fun n => Xo.seed n.toUInt64
+
+def hexOf (t : Text) : String :=
+  if t = [] then "-" else
+  let d (n : Nat) : Char := if n < 10 then Char.ofNat (48 + n) else Char.ofNat (87 + n)
+  String.ofList (t.flatMap fun c => [d (c.toNat / 16 % 16), d (c.toNat % 16)])
+
+/-- base:showbase:uppercase:showpos:width:fill:adjust:skipws:sep:grouping (see harness/c07_rng.cc) -/
+def cfgOf (s : String) : Option Cfg :=
+  match s.splitOn ":" with
+  | [b, sb, up, sp, w, f, a, ws, sep, g] =>
+    match b.toNat?, w.toNat?, f.toNat?, a.toNat? with
+    | some b, some w, some f, some a =>
+      let facet := sep ≠ "-"
+      let grouping : Option (List Nat) :=
+        if facet then (unhex g).map (·.map Char.toNat) else some []
+      match grouping, (if facet then sep.toNat? else some 44) with
+      | some gs, some sc =>
+        some { base := b, showbase := sb = "1", upper := up = "1", showpos := sp = "1", width := w,
+               fill := Char.ofNat f, adjust := a, skipws := ws = "1", facet := facet,
+               sep := Char.ofNat sc, grouping := gs }
+      | _, _ => none
+    | _, _, _, _ => none
+  | _ => none
+
+def wordsText (e : Xo) : String := s!"{e.s0} {e.s1} {e.s2} {e.s3}"
 
 def showText (t : Text) : String := String.ofList (t.map fun c => if c = ' ' then '_' else c)
 
@@ -102,6 +132,28 @@ def answer (line : String) : String :=
         match (List.range n).find? (fun i => xs[i]? != ys[i]?) with
         | none => "same"
         | some i => s!"diff {i}"
+    | _, _, _, _, _ => "bad-op"
+  | ["cfgrt", sa, k, sb, j, _n, cfg] =>
+    match engineOf sa, k.toNat?, engineOf sb, j.toNat?, cfgOf cfg with
+    | some a, some k, some b, some j, some c =>
+      let a := a.advance k
+      let b := b.advance j
+      match putState c Gen.writeItems c.width a with
+      | none => "oob"
+      | some t =>
+        match getState c Gen.readIdx b t false false with
+        | none => "oob"
+        | some (r, good) =>
+          (if !good then "fail" else if r = a then "same" else "diff") ++ " " ++ wordsText r ++ " " ++ hexOf t
+    | _, _, _, _, _ => "bad-op"
+  | ["cfgload", sb, j, cfg, hex, n] =>
+    match engineOf sb, j.toNat?, cfgOf cfg, unhex hex, n.toNat? with
+    | some b, some j, some c, some t, some n =>
+      match getState c Gen.readIdx (b.advance j) t false false with
+      | none => "oob"
+      | some (r, good) =>
+        (if good then "ok " else "fail ") ++ wordsText r ++
+          String.join ((r.take n).map fun o => " " ++ toString o)
     | _, _, _, _, _ => "bad-op"
   | ["sup", s, bound, count] =>
     match s.toNat?, bound.toNat?, count.toNat? with
